@@ -52,6 +52,24 @@ PROPS["C05"] = {
     "assumptions": ["ASCII case mapping (non-ASCII header strings are outside the model)"],
 }
 
+VAL_NOTE = NOTE_COMMON + ("Key-role tests, url.Parse, net.ParseCIDR, time.Parse, time.LoadLocation and the decoding of embedded activation tokens are Section variables "
+    "(theorems hold for all of them); in the correspondence run they are fact tables computed by the harness. strconv.Atoi is modelled concretely. ")
+PROPS["C06"] = {
+    "level_text": "Theorems (Properties/C06.v, catalogue in Model/Catalogue.v = DESIGN.md 5.6): for each kind, IsBlocking(false) after Validate EQUALS 'some catalogued rule fires', for every claims value and every judgement of the external functions - so each violation is flagged wherever it sits and whatever else the claims contain, and claims on which no rule fires are never flagged (mapping weights summed in Z). Tie: clean claims from a constructive generator and one injected violation per catalogued rule (64 rules, random element/position/magnitude), IsBlocking(false) observed and compared with the model in Coq and with the injection oracle.",
+    "level_note": VAL_NOTE,
+    "assumptions": ["claims enter validation through the typed views of Model/Validate.v (fields Validate does not read are not represented)"],
+}
+PROPS["C07"] = {
+    "level_text": "Theorems (Properties/C07.v): for each of the 7 kinds the number of TimeCheck issues is exactly [0 < exp < now] + [0 < nbf and now < nbf] over all of Z (zero/negative = unset), whatever else the claims contain; IsBlocking(true) = IsBlocking(false) or a time issue exists; time issues alone never block. Tie: 7 kinds x the 9x9 (exp, nbf) grid incl. int64 extremes plus random pairs on clean claims, outside a 2-second band, compared with the model in Coq.",
+    "level_note": VAL_NOTE + "The clock is read once per Validate; the harness brackets it to one second.",
+    "assumptions": ["now = the Unix second observed around the call"],
+}
+PROPS["C10"] = {
+    "level_text": "Theorems (Properties/C10.v): the token part of Import.Validate is non-blocking iff the token decodes as an activation and issuer-or-issuer-account = exporter, subject = containing account, kinds equal, activation valid, and the imported subject (or 'to' for services) is contained in the granted one (containment = NATS semantics by C16); it never contributes a time-check issue; the same at import and account level for an import at any position. Tie: all 2^5 satisfy/violate patterns x signer kinds x v1/v2 token layout, directly and inside a clean account, compared with the model in Coq.",
+    "level_note": VAL_NOTE + "'Authentic and decodable' is DecodeActivationClaims, whose gate is C01/C02/C05.",
+    "assumptions": [],
+}
+
 NOT_APPLICABLE = {}
 
 # finding id -> predicate on a violation record (dict with 'what' and 'input')
